@@ -304,6 +304,49 @@ type subCase struct {
 
 var subBig = make([]byte, subMaxMsgSize+1)
 
+var (
+	bigValidMu    sync.Mutex
+	bigValidCache = map[string][]byte{}
+)
+
+// bigValid returns a well-formed message of the given code that is just over (or just under) the size
+// limit: a node-data reply with one large blob, or a body request for very many (unknown) hashes.
+func bigValid(code uint64, over bool) []byte {
+	key := fmt.Sprintf("%d/%v", code, over)
+	bigValidMu.Lock()
+	defer bigValidMu.Unlock()
+	if b, ok := bigValidCache[key]; ok {
+		return b
+	}
+	var b []byte
+	switch code {
+	case aqua.NodeDataMsg:
+		n := subMaxMsgSize - 16
+		if over {
+			n = subMaxMsgSize
+		}
+		b = refrlp.Encode(refrlp.List(refrlp.Str(make([]byte, n))))
+	default: // hash list
+		n := subMaxMsgSize/33 - 1
+		if over {
+			n = subMaxMsgSize/33 + 1
+		}
+		body := make([]byte, 0, n*33)
+		h := keccak([]byte("c17-unknown-2"))
+		for i := 0; i < n; i++ {
+			body = append(body, 0xa0)
+			body = append(body, h...)
+		}
+		hdr := []byte{0xf9 + 1, byte(len(body) >> 16), byte(len(body) >> 8), byte(len(body))}
+		b = append(hdr, body...)
+	}
+	if over != (len(b) > subMaxMsgSize) {
+		ev.Broken("bigValid: size %d does not match over=%v", len(b), over)
+	}
+	bigValidCache[key] = b
+	return b
+}
+
 // payload materialises the message body of a case (kept out of the case list: the thorough list has
 // more than a million entries).
 func (c subCase) payload(valid []subMsg) []byte {
@@ -320,6 +363,8 @@ func (c subCase) payload(valid []subMsg) []byte {
 		alt := append([]byte{}, base...)
 		alt[c.A] ^= byte(c.B)
 		return alt
+	case "oversize-valid", "nearmax-valid":
+		return bigValid(c.Code, c.Kind == "oversize-valid")
 	case "oversize":
 		return subBig
 	case "maxsize":
@@ -427,6 +472,11 @@ func subCases(e *subEnv, valid []subMsg, thorough bool, visit func(subCase) bool
 	for code := uint64(0); code <= 0x12; code++ {
 		add(code, "oversize", "oversize", -1, 0, 0, nil, mustErr)
 		add(code, "maxsize", "maxsize-zeros", -1, 0, 0, nil)
+	}
+	// well-formed messages on both sides of the limit: refusal must come from the limit, not from the decoder
+	for _, code := range []uint64{aqua.NodeDataMsg, aqua.GetBlockBodiesMsg, aqua.GetReceiptsMsg, aqua.GetNodeDataMsg} {
+		add(code, "oversize-valid", "oversize-wellformed", -1, 0, 0, nil, mustErr)
+		add(code, "nearmax-valid", "nearmax-wellformed", -1, 0, 0, nil, must)
 	}
 	var many []*refrlp.Item
 	for i := 0; i < 4096; i++ {
@@ -779,6 +829,7 @@ func subWorker(t *testing.T, shard, n int) {
 type subCrash struct {
 	shard  int
 	output string
+	wal    string
 }
 
 func lastWAL(path string) (idx int, label string, finished bool) {
@@ -815,8 +866,8 @@ func crashSite(output string) (msg, site string, stuck bool) {
 				m = strings.TrimSpace(m)
 				if strings.HasPrefix(m, "gitlab.com/aquachain/aquachain/") && !strings.Contains(m, "zzverif/") {
 					site = m
-					if k := strings.Index(site, "("); k > 0 {
-						site = site[:k]
+					if k := strings.LastIndex(site, "("); k > 0 && strings.HasSuffix(site, ")") {
+						site = site[:k] // drop the argument list
 					}
 					site = strings.TrimPrefix(site, "gitlab.com/aquachain/aquachain/")
 					break
@@ -839,7 +890,7 @@ func runSub(run *ev.Run, deadline time.Time) {
 	var crashes []subCrash
 	results := run.RunWorkers(n, append(envBase, "C17_SUB_TAG=main"), func(shard int, output string) {
 		mu.Lock()
-		crashes = append(crashes, subCrash{shard, output})
+		crashes = append(crashes, subCrash{shard, output, walPath("main", shard)})
 		mu.Unlock()
 	})
 	if p := os.Getenv("C17_DUMP_CLASSES"); p != "" { // development aid
@@ -870,10 +921,7 @@ func runSub(run *ev.Run, deadline time.Time) {
 	for len(crashes) > 0 {
 		cr := crashes[0]
 		crashes = crashes[1:]
-		wal := walPath("main", cr.shard)
-		if restarts > 0 {
-			wal = walPath(fmt.Sprintf("resume%d", restarts), 0)
-		}
+		wal := cr.wal
 		if strings.Contains(cr.output, "HARNESS-ERROR:") {
 			ev.Broken("sub-protocol worker %d reported a harness error:\n%s", cr.shard, tailStr(cr.output, 2000))
 		}
@@ -919,9 +967,10 @@ func runSub(run *ev.Run, deadline time.Time) {
 			break
 		}
 		shardSpec := fmt.Sprintf("C17_SUB_SHARD=%d/%d", cr.shard, n)
-		run.RunWorkers(1, append(envBase, fmt.Sprintf("C17_SUB_TAG=resume%d", restarts), shardSpec, fmt.Sprintf("C17_SUB_FROM=%d", idx+1)), func(_ int, output string) {
+		tag := fmt.Sprintf("resume%d", restarts)
+		run.RunWorkers(1, append(envBase, "C17_SUB_TAG="+tag, shardSpec, fmt.Sprintf("C17_SUB_FROM=%d", idx+1)), func(_ int, output string) {
 			mu.Lock()
-			crashes = append(crashes, subCrash{cr.shard, output})
+			crashes = append(crashes, subCrash{cr.shard, output, walPath(tag, cr.shard)})
 			mu.Unlock()
 		})
 	}
